@@ -1,3 +1,4 @@
+#define VP_AMBIENT_ROUNDING 1 // results of this executor may not depend on the dynamic floating-point rounding mode (drv/vp.h)
 // C06 — dynamic string against std::string (+ "terminated" flag); with -DVP_FAULT the string
 // part of C07. Formatted append is compared with vsnprintf on the same format and arguments.
 #include "fault.h"
